@@ -1744,3 +1744,289 @@ Qed.
 
 (* readable view of a result list for the Examples: the end positions, in priority order *)
 Definition rw_positions (r : res (list st)) : list Z := match r with Ok l => map pos l | _ => [-1] end.
+
+(* ------------------------------------------------------------------------------------------ *)
+(* 12. R4 continued: a calculus for "the continuation fails wherever the loop stopped early"     *)
+(*     mirroring canBeMadeAtomic (skip down into what is guaranteed to follow, step over          *)
+(*     nullable disjoint loops and zero-width tests), lazy loops, boundary anchors                *)
+(* ------------------------------------------------------------------------------------------ *)
+
+Section AutoAtomic2.
+Variable e : env.
+Notation evals := (rw_evals e).
+
+(* when all but one of the results of the head of a concatenation are dead ends, only that one counts *)
+Lemma concat_cons_prune o x rest s l1 a l2 z :
+  evals x s (l1 ++ a :: l2) ->
+  (forall b, In b l1 \/ In b l2 -> evals (NConcat o rest) b []) ->
+  (evals (NConcat o (x :: rest)) s z <-> evals (NConcat o rest) a z).
+Proof.
+  intros Hx Hdead. rewrite evals_concat_cons. split.
+  - intros (lx & zs & Hx' & HF & ->). rewrite (rw_evals_det e _ _ _ _ Hx' Hx) in HF.
+    apply Forall2_app_inv_l in HF as (zs1 & zs' & H1 & H2 & ->).
+    inversion H2 as [|a' za l2' zs2 Ha H2']; subst.
+    assert (Hnil : forall l zs0, (forall b, In b l -> evals (NConcat o rest) b []) ->
+                     Forall2 (fun a0 za0 => evals (NConcat o rest) a0 za0) l zs0 -> concat zs0 = []).
+    { intros l zs0 Hl HF. induction HF as [|b zb l zs0 Hb _ IH]; [reflexivity|]. cbn [concat].
+      rewrite (rw_evals_det e _ _ _ _ Hb (Hl b (or_introl eq_refl))). apply IH. intros; apply Hl; right; assumption. }
+    rewrite concat_app. cbn [concat]. rewrite (Hnil _ _ (fun b Hb => Hdead b (or_introl Hb)) H1).
+    rewrite (Hnil _ _ (fun b Hb => Hdead b (or_intror Hb)) H2'). rewrite app_nil_r. exact Ha.
+  - intros Ha. exists (l1 ++ a :: l2), (map (fun _ => []) l1 ++ z :: map (fun _ => []) l2).
+    split; [exact Hx|]. split.
+    + apply Forall2_app; [|constructor; [exact Ha|]].
+      * clear -Hdead. induction l1 as [|b l1 IH]; constructor; [apply Hdead; left; left; reflexivity|].
+        apply IH. intros b' [Hb|Hb]; apply Hdead; [left; right; assumption | right; assumption].
+      * clear -Hdead. induction l2 as [|b l2 IH]; constructor; [apply Hdead; right; left; reflexivity|].
+        apply IH. intros b' [Hb|Hb]; apply Hdead; [left; assumption | right; right; assumption].
+    + rewrite concat_app. cbn [concat].
+      assert (Hn : forall (l : list st), concat (map (fun _ => @nil st) l) = []) by (induction l; simpl; auto).
+      rewrite !Hn, app_nil_r. reflexivity.
+Qed.
+
+Lemma count_up_aux_snoc n a : count_up_aux (S n) a = count_up_aux n a ++ [a + Z.of_nat n].
+Proof.
+  revert a. induction n as [|n IH]; intros a.
+  - simpl. replace (a + 0) with a by lia. reflexivity.
+  - change (count_up_aux (S (S n)) a) with (a :: count_up_aux (S n) (a + 1)). rewrite IH.
+    cbn [count_up_aux app]. f_equal. f_equal. f_equal. lia.
+Qed.
+
+Lemma count_up_snoc m r : m <= r -> count_up m r = count_up m (r - 1) ++ [r].
+Proof.
+  intros H. unfold count_up. assert (r <? m = false) as -> by lia.
+  replace (Z.to_nat (r - m + 1)) with (S (Z.to_nat (r - 1 - m + 1))) by lia. rewrite count_up_aux_snoc.
+  destruct (r - 1 <? m) eqn:E.
+  - replace (Z.to_nat (r - 1 - m + 1)) with 0%nat by lia. simpl. f_equal. lia.
+  - f_equal. f_equal. lia.
+Qed.
+
+Lemma count_up_aux_in n a j : In j (count_up_aux n a) <-> a <= j < a + Z.of_nat n.
+Proof.
+  revert a. induction n as [|n IH]; intros a; cbn [count_up_aux In]; [lia|]. rewrite IH. lia.
+Qed.
+
+Lemma count_up_in a b j : In j (count_up a b) <-> a <= j <= b.
+Proof.
+  unfold count_up. destruct (b <? a) eqn:E; [simpl; lia|]. rewrite count_up_aux_in. lia.
+Qed.
+
+(* all three flavours of a loop in front of a continuation that is dead at every early stop *)
+Lemma charloop_then_dead k l o o1 c m n rest s z :
+  (forall j, m <= j < loop_run e k o1 c n s -> rw_seq_fails e rest (loop_state o1 s j)) ->
+  (evals (NConcat o (NCharLoop k l o1 c m n :: rest)) s z <->
+   if loop_run e k o1 c n s <? m then z = [] else evals (NConcat o rest) (loop_state o1 s (loop_run e k o1 c n s)) z).
+Proof.
+  intros Hdead. set (r := loop_run e k o1 c n s) in *.
+  assert (Hx : evals (NCharLoop k l o1 c m n) s (sem_charloop e k l o1 c m n s)) by (leaf_intro; reflexivity).
+  rewrite sem_charloop_unfold in Hx. cbv zeta in Hx. fold r in Hx.
+  destruct (r <? m) eqn:E.
+  - rewrite evals_concat_cons. split.
+    + intros (lx & zs & Hx' & HF & ->). rewrite (rw_evals_det e _ _ _ _ Hx' Hx) in HF. inversion HF. reflexivity.
+    + intros ->. exists [], []. split; [exact Hx|]. split; [constructor | reflexivity].
+  - assert (Hd : forall j, m <= j <= r - 1 -> evals (NConcat o rest) (loop_state o1 s j) []).
+    { intros j Hj. apply seq_fails_evals, Hdead. lia. }
+    destruct l.
+    + rewrite (count_down_cons r m) in Hx by lia. cbn [map] in Hx.
+      apply (concat_cons_prune o _ rest s [] _ _ z Hx).
+      intros b [[]|Hb]. apply in_map_iff in Hb as (j & <- & Hj). apply count_down_in in Hj. apply Hd. lia.
+    + rewrite (count_up_snoc m r) in Hx by lia. rewrite map_app in Hx. cbn [map] in Hx.
+      apply (concat_cons_prune o _ rest s _ _ [] z Hx).
+      intros b [Hb|[]]. apply in_map_iff in Hb as (j & <- & Hj). apply count_up_in in Hj. apply Hd. lia.
+    + apply (concat_cons_prune o _ rest s [] _ [] z Hx). intros b [[]|[]].
+Qed.
+
+(* R4 for LAZY loops (processNode, tree.go:438-457): a lazy loop followed by something that fails at
+   every early stop is the atomic GREEDY loop — "lazy to greedy" then makeLoopAtomic *)
+Theorem auto_atomic_lazy k o o1 c m n rest :
+  (forall s j, m <= j < loop_run e k o1 c n s -> rw_seq_fails e rest (loop_state o1 s j)) ->
+  rw_eq e (NConcat o (NCharLoop k LLazy o1 c m n :: rest))
+          (NConcat o (NCharLoop k LAtomic o1 c m n :: rest)).
+Proof.
+  intros H. split; intros s z Hz.
+  - apply (charloop_then_dead k LAtomic o o1 c m n rest s z (H s)).
+    apply (charloop_then_dead k LLazy o o1 c m n rest s z (H s)). exact Hz.
+  - apply (charloop_then_dead k LLazy o o1 c m n rest s z (H s)).
+    apply (charloop_then_dead k LAtomic o o1 c m n rest s z (H s)). exact Hz.
+Qed.
+
+(* ---- the calculus ---- *)
+
+(* [x] / the continuation [rest] is dead at every state whose next character passes the test (k,c) *)
+Definition fails_in (k : ckind) (o c : Z) (x : node) : Prop := forall s, next_in e k o c s -> rw_fails e x s.
+Definition cont_fails_in (k : ckind) (o c : Z) (rest : list node) : Prop :=
+  forall s, next_in e k o c s -> rw_seq_fails e rest s.
+
+Theorem auto_atomic_by_cont k o o1 c m n rest : 0 <= m -> cont_fails_in k o1 c rest ->
+  rw_eq e (NConcat o (NCharLoop k LGreedy o1 c m n :: rest)) (NConcat o (NCharLoop k LAtomic o1 c m n :: rest)) /\
+  rw_eq e (NConcat o (NCharLoop k LLazy o1 c m n :: rest)) (NConcat o (NCharLoop k LAtomic o1 c m n :: rest)).
+Proof.
+  intros Hm Hc. split; [apply auto_atomic_charloop | apply auto_atomic_lazy];
+    intros s j Hj; apply Hc; eapply early_next_in; eassumption.
+Qed.
+
+Lemma cont_fails_head k o c x rest : fails_in k o c x -> cont_fails_in k o c (x :: rest).
+Proof.
+  intros H s Hs. destruct (H s Hs) as [f Hf]. exists f. cbn [seq_sem]. rewrite Hf. reflexivity.
+Qed.
+
+(* stepping over a successor that can only match the empty string there *)
+Lemma cont_fails_skip k o c x rest :
+  (forall s, next_in e k o c s -> exists l, evals x s l /\ (l = [] \/ l = [s])) ->
+  cont_fails_in k o c rest -> cont_fails_in k o c (x :: rest).
+Proof.
+  intros Hx Hr s Hs. destruct (Hx s Hs) as (l & [f Hf] & Hl). destruct Hl as [-> | ->].
+  - exists f. cbn [seq_sem]. rewrite Hf. reflexivity.
+  - destruct (Hr s Hs) as [f' Hf']. exists (Nat.max f f'). cbn [seq_sem].
+    rewrite (rw_sem_mono e f (Nat.max f f') _ _ _ ltac:(lia) Hf). unfold bindr. cbn [bind]. rewrite bindl_single.
+    eapply rle_seq_sem; [|exact Hf']. intros t s' a Ha. eapply rw_sem_mono; [|exact Ha]. lia.
+Qed.
+
+(* a leaf that fails whatever the fuel *)
+Lemma fails_in_leaf k o c x : (forall s f, next_in e k o c s -> sem e (S f) x s = Ok []) -> fails_in k o c x.
+Proof. intros H s Hs. exists 1%nat. apply H, Hs. Qed.
+
+Lemma fails_in_char k o c k' o' c' : is_rtl o' = is_rtl o -> tests_disjoint e k c k' c' -> fails_in k o c (NChar k' o' c').
+Proof. intros Hd Hdis. apply fails_in_leaf. intros s f Hs. eapply succ_char_fails; eassumption. Qed.
+
+Lemma fails_in_multi k o c o' c0 str : is_rtl o = false -> is_rtl o' = false ->
+  (forall ch, char_test e k c ch = true -> (c0 =? (if is_ci o' then lower e ch else ch)) = false) ->
+  fails_in k o c (NMulti o' (c0 :: str)).
+Proof. intros Ho Ho' Hdis. apply fails_in_leaf. intros s f Hs. apply (succ_multi_fails e k o c); assumption. Qed.
+
+Lemma fails_in_charloop k o c k' l' o' c' m' n' : is_rtl o' = is_rtl o -> tests_disjoint e k c k' c' -> 1 <= m' ->
+  fails_in k o c (NCharLoop k' l' o' c' m' n').
+Proof. intros Hd Hdis Hm. apply fails_in_leaf. intros s f Hs. eapply succ_charloop_fails; eassumption. Qed.
+
+Lemma fails_in_end k o c : is_rtl o = false -> fails_in k o c (NAnchor AEnd).
+Proof. intros Ho. apply fails_in_leaf. intros s f Hs. eapply succ_end_fails; eassumption. Qed.
+
+Lemma fails_in_eol k o c : is_rtl o = false -> char_test e k c 10 = false -> fails_in k o c (NAnchor AEol).
+Proof. intros Ho Hnl. apply fails_in_leaf. intros s f Hs. eapply succ_eol_fails; eassumption. Qed.
+
+Lemma fails_in_endz k o c : is_rtl o = false -> char_test e k c 10 = false -> fails_in k o c (NAnchor AEndZ).
+Proof. intros Ho Hnl. apply fails_in_leaf. intros s f Hs. eapply succ_endz_fails; eassumption. Qed.
+
+(* skipping down to "the closest node guaranteed to follow" (tree.go:879-890): first child of a
+   concatenation, child of a capture / atomic / group / positive lookahead, body of a loop with min > 0 *)
+Lemma fails_in_concat k o c o' x l : fails_in k o c x -> fails_in k o c (NConcat o' (x :: l)).
+Proof.
+  intros H s Hs. apply evals_concat_cons. exists [], []. split; [apply H, Hs|]. split; [constructor | reflexivity].
+Qed.
+
+Lemma fails_in_capture k o c o' g u x : fails_in k o c x -> fails_in k o c (NCapture o' g u x).
+Proof. intros H s Hs. apply evals_capture. exists []. split; [apply H, Hs | reflexivity]. Qed.
+
+Lemma fails_in_atomic k o c x : fails_in k o c x -> fails_in k o c (NAtomic x).
+Proof. intros H s Hs. apply evals_atomic. exists []. split; [apply H, Hs | reflexivity]. Qed.
+
+Lemma fails_in_group k o c x : fails_in k o c x -> fails_in k o c (NGroup x).
+Proof. intros H s Hs. apply (proj2 (evals_group _ _ _ _)). apply H, Hs. Qed.
+
+Lemma fails_in_poslook k o c o' x : fails_in k o c x -> fails_in k o c (NPosLook o' x).
+Proof. intros H s Hs. apply evals_poslook. exists []. split; [apply H, Hs | reflexivity]. Qed.
+
+Lemma fails_in_loop k o c lazy o' m' n' x : m' <> 0 -> fails_in k o c x -> fails_in k o c (NLoop lazy o' m' n' x).
+Proof.
+  intros Hm H s Hs. destruct (H s Hs) as [f Hf]. exists (S f). rewrite sem_S. cbn [sem_step].
+  assert (m' =? 0 = false) as -> by lia. rewrite Hf. reflexivity.
+Qed.
+
+(* an alternation: every branch (tree.go:904-912) *)
+Lemma fails_in_alt k o c o' l : Forall (fails_in k o c) l -> fails_in k o c (NAlternate o' l).
+Proof.
+  intros H s Hs. apply evals_alt_all. exists (map (fun _ => []) l). split.
+  - induction H as [|x l Hx _ IH]; constructor; [apply Hx, Hs | exact IH].
+  - clear. induction l; simpl; auto.
+Qed.
+
+(* stepping over a nullable loop with a disjoint test (tree.go:933-935, 954, 971-972), any flavour *)
+Lemma cont_fails_skip_charloop0 k o c k' l' o' c' n' rest : is_rtl o' = is_rtl o -> tests_disjoint e k c k' c' ->
+  cont_fails_in k o c rest -> cont_fails_in k o c (NCharLoop k' l' o' c' 0 n' :: rest).
+Proof.
+  intros Hd Hdis. apply cont_fails_skip. intros s [Ha Ht]. exists [s]. split; [|right; reflexivity].
+  leaf_intro. rewrite sem_charloop_unfold. cbv zeta.
+  assert (Hr : loop_run e k' o' c' n' s = 0).
+  { unfold loop_run. cbv zeta. destruct (Z.to_nat _) as [|cap]; [reflexivity|]. cbn [run_len].
+    rewrite (next_char_same_dir e o o') by exact Hd. rewrite (Hdis _ Ht), andb_false_r. reflexivity. }
+  rewrite Hr. change (0 <? 0) with false. cbv iota.
+  assert (Hs : loop_state o' s 0 = s).
+  { unfold loop_state. replace (pos s + dir o' * 0) with (pos s) by lia. destruct s; reflexivity. }
+  destruct l'; [change (count_down 0 0) with [0] | change (count_up 0 0) with [0] | ]; cbn [map]; rewrite Hs; reflexivity.
+Qed.
+
+(* stepping over any zero-width test, Empty and the bump-along marker *)
+Lemma cont_fails_skip_anchor k o c a rest : cont_fails_in k o c rest -> cont_fails_in k o c (NAnchor a :: rest).
+Proof.
+  apply cont_fails_skip. intros s _. eexists. split; [leaf_intro; reflexivity|].
+  destruct (anchor_ok e a (pos s)); [right | left]; reflexivity.
+Qed.
+
+Lemma cont_fails_skip_empty k o c rest : cont_fails_in k o c rest -> cont_fails_in k o c (NEmpty :: rest).
+Proof. apply cont_fails_skip. intros s _. eexists. split; [leaf_intro; reflexivity | right; reflexivity]. Qed.
+
+Lemma cont_fails_skip_bump k o c rest : cont_fails_in k o c rest -> cont_fails_in k o c (NBump :: rest).
+Proof. apply cont_fails_skip. intros s _. eexists. split; [leaf_intro; reflexivity | right; reflexivity]. Qed.
+
+(* ---- boundary anchors (tree.go:936-939, 973-976): \b after a loop of word characters with min >= 1
+   fails between two loop characters.  The states must lie inside the text (pos >= 0), which every
+   state reached from a search does; hence a per-state statement. ---- *)
+Lemma auto_atomic_charloop_strong_at k o o1 c m n x rest s :
+  (forall f j, m <= j < loop_run e k o1 c n s -> sem e (S f) x (loop_state o1 s j) = Ok []) ->
+  forall f, sem e f (NConcat o (NCharLoop k LGreedy o1 c m n :: x :: rest)) s =
+            sem e f (NConcat o (NCharLoop k LAtomic o1 c m n :: x :: rest)) s.
+Proof.
+  intros Hx [|[|f]]; try reflexivity. rewrite !sem_S. cbn [sem_step seq_sem].
+  rewrite !sem_S. cbn [sem_step]. rewrite !sem_charloop_unfold. cbv zeta.
+  set (r := loop_run e k o1 c n s). destruct (r <? m) eqn:E; [reflexivity|].
+  rewrite (count_down_cons r m) by lia. cbn [map]. unfold bindr at 1 3. cbn [bind bindl].
+  set (K := fun s0 => bindr (sem e (S f) x s0) (seq_sem (sem e (S f)) rest)).
+  rewrite (bindl_all_nil (map (loop_state o1 s) (count_down (r - 1) m)) K); [reflexivity|].
+  intros a Ha. apply in_map_iff in Ha as (j & <- & Hj). apply count_down_in in Hj.
+  unfold K. rewrite Hx by (fold r; lia). reflexivity.
+Qed.
+
+Theorem auto_atomic_then_boundary k o o1 c m n a w rest :
+  (a = ABoundary /\ w = is_word e) \/ (a = AECMABoundary /\ w = is_eword e) ->
+  1 <= m -> is_rtl o1 = false -> (forall ch, char_test e k c ch = true -> w ch = true) ->
+  forall f s, 0 <= pos s ->
+    sem e f (NConcat o (NCharLoop k LGreedy o1 c m n :: NAnchor a :: rest)) s =
+    sem e f (NConcat o (NCharLoop k LAtomic o1 c m n :: NAnchor a :: rest)) s.
+Proof.
+  intros Ha Hm Ho Hw f s Hp. apply auto_atomic_charloop_strong_at. intros f' j Hj.
+  unfold loop_run in Hj. cbv zeta in Hj. destruct Hj as [Hj1 Hj2].
+  assert (H1 : (0 <? avail e o1 (pos s + dir o1 * j)) && char_test e k c (next_char e o1 (pos s + dir o1 * j)) = true)
+    by (eapply run_len_char; split; [lia | exact Hj2]).
+  assert (H0 : (0 <? avail e o1 (pos s + dir o1 * (j - 1))) && char_test e k c (next_char e o1 (pos s + dir o1 * (j - 1))) = true)
+    by (eapply run_len_char; split; [lia | eapply Z.lt_trans; [|exact Hj2]; lia]).
+  apply andb_true_iff in H1 as [A1 T1]. apply andb_true_iff in H0 as [A0 T0].
+  unfold avail, next_char, dir in A1, T1, A0, T0. rewrite Ho in A1, T1, A0, T0.
+  apply Hw in T1. apply Hw in T0.
+  rewrite sem_S. cbn [sem_step]. unfold loop_state, dir. rewrite Ho. cbn [pos with_pos].
+  assert (Hb : is_boundary e w (pos s + 1 * j) = false).
+  { unfold is_boundary. replace (pos s + 1 * j - 1) with (pos s + 1 * (j - 1)) by lia. rewrite T0, T1.
+    assert (0 <? pos s + 1 * j = true) as -> by lia. assert (pos s + 1 * j <? tlen e = true) as -> by lia. reflexivity. }
+  destruct Ha as [[-> ->] | [-> ->]]; cbn [anchor_ok]; rewrite Hb; reflexivity.
+Qed.
+
+End AutoAtomic2.
+
+(* ------------------------------------------------------------------------------------------ *)
+(* 13. R6 in atomic position: the factored alternation is re-wrapped (tree.go:1161-1165, 1241-1245) *)
+(* ------------------------------------------------------------------------------------------ *)
+
+Section PrefixAtomic.
+Variable e : env.
+
+Theorem alt_prefix_factor_atomic o1 o2 o3 o4 o5 p bs : bs <> [] -> single_result e p ->
+  rw_eq e (NAtomic (NAlternate o1 (map (fun a => NConcat o2 (p :: a)) bs)))
+          (NAtomic (NConcat o3 [p; NAtomic (NAlternate o4 (map (NConcat o5) bs))])).
+Proof.
+  intros Hne Hs. destruct (alt_prefix_factor e o1 o2 o3 o4 o5 p bs Hne Hs) as [H1 H2].
+  pose proof (concat_last_tail e o3 [p] _ _ (proj2 (atomic_heq e (NAlternate o4 (map (NConcat o5) bs))))) as W1.
+  pose proof (concat_last_tail e o3 [p] _ _ (proj1 (atomic_heq e (NAlternate o4 (map (NConcat o5) bs))))) as W2.
+  cbn [app] in W1, W2. split; apply atomic_observes_head.
+  - eapply rw_hrefines_trans; [apply rw_refines_hrefines, H1 | exact W1].
+  - eapply rw_hrefines_trans; [exact W2 | apply rw_refines_hrefines, H2].
+Qed.
+
+End PrefixAtomic.
